@@ -687,6 +687,21 @@ def run_param_fallbacks(res: Results, idx: Index) -> None:
                                   "the rule then differentiates / batches another function than the one that was traced", fi.qualname)
                 else:
                     res.ok("R-C10g", site, key, f"`{src(x, 60)}` does not fall back to a constant", fi.qualname)
+    # a rule that takes a bound parameter out of its params mapping and throws it away
+    for m in idx.product_modules():
+        if ".plugins." not in m.name:
+            continue
+        for fi in m.funcs.values():
+            a = fi.node.args  # type: ignore[attr-defined]
+            if a.kwarg is None or not any(k in fi.name.lower() for k in ("batch", "jvp", "transpose", "vjp")):
+                continue
+            for st in walk_no_nested(fi.node):
+                if isinstance(st, ast.Expr) and isinstance(st.value, ast.Call) and isinstance(st.value.func, ast.Attribute) and st.value.func.attr == "pop" and isinstance(st.value.func.value, ast.Name) \
+                        and st.value.func.value.id == a.kwarg.arg and st.value.args and isinstance(st.value.args[0], ast.Constant):
+                    hits += 1
+                    k_ = st.value.args[0].value
+                    res.violation("R-C10g", f"{m.rel}:{st.lineno}", f"{m.rel}::{fi.qualname}::discarded::{k_}", f"`{src(st, 60)}` takes the bound parameter `{k_}` out of the mapping and discards it: the rule then evaluates "
+                                  "the function as if the parameter had not been given (for @onnx_function classes: the instance bound last instead of the instance of this call)", fi.qualname)
     if hits == 0:
         # nothing of that shape in the tree: keep the rule alive with the scan count and a positive control
         res.ok("R-C10g", "jax2onnx/plugins:1", "param-fallback::none", f"{n} parameter-reading rule functions scanned; none guards a parameter by isinstance with a constant fallback", "<scan>")
